@@ -4,6 +4,7 @@
 import BezierVerif.Basic
 import BezierVerif.Model.Polygon
 import BezierVerif.Model.Sweep
+import BezierVerif.Model.MinDist
 import BezierVerif.Gen.Box
 
 namespace ModelDriver
@@ -36,6 +37,24 @@ def sweep (nA : Nat) (bs : List (ℚ × ℚ × ℚ × ℚ)) : String :=
   let st := Sweep.run ov evs
   "ok " ++ " ".intercalate (st.out.map fun p => showObj p.1 ++ ":" ++ showObj p.2)
 
+def parseOptRat (s : String) : Option (Option ℚ) :=
+  if s == "none" then some none else (parseRat s).map some
+
+def showOptRat : Option ℚ → String
+  | none => "none"
+  | some q => showRat q
+
+/-- one `minDist` call of the model on recorded inputs: corner values of S, the D table (row width W) -/
+def mindistNode (n m W : Nat) (eps : ℚ) (best : Option ℚ) (umin umax vmin vmax s00 s01 s10 s11 : ℚ) (D : List ℚ) : String :=
+  let S (a b : ℚ) : ℚ :=
+    if a = umin ∧ b = vmin then s00 else if a = umin ∧ b = vmax then s01
+    else if a = umax ∧ b = vmin then s10 else s11
+  let P : MinDist.Params ℚ := { n := n, m := m, S := S, D := fun r k => D.getD (r * W + k) 0, eps := eps }
+  match MinDist.act P best (umin, umax) (vmin, vmax) with
+  | none => "none"
+  | some (.ret t, b) => "ret " ++ showRats [t.1, t.2.1, t.2.2] ++ " " ++ showOptRat b
+  | some (.split nu nv, b) => "split " ++ showRats [nu, nv] ++ " " ++ showOptRat b
+
 def handle (name : String) (args : List String) : String :=
   match name with
   | "polygon.signedArea" =>
@@ -48,6 +67,21 @@ def handle (name : String) (args : List String) : String :=
       match n.toNat?, rest.mapM parseRat >>= boxesOf with
       | some nA, some bs => sweep nA bs
       | _, _ => "bad-args"
+    | _ => "bad-args"
+  | "mindist.node" =>
+    match args with
+    | n :: m :: w :: eps :: best :: rest =>
+      match n.toNat?, m.toNat?, w.toNat?, parseRat eps, parseOptRat best, rest.mapM parseRat with
+      | some n, some m, some w, some eps, some best, some (umin :: umax :: vmin :: vmax :: s00 :: s01 :: s10 :: s11 :: D) =>
+        mindistNode n m w eps best umin umax vmin vmax s00 s01 s10 s11 D
+      | _, _, _, _, _, _ => "bad-args"
+    | _ => "bad-args"
+  | "mindist.combine" =>
+    match args.mapM parseRat with
+    | some [a1, a2, a3, b1, b2, b3, c1, c2, c3, d1, d2, d3] =>
+      match MinDist.minBy [(a1, a2, a3), (b1, b2, b3), (c1, c2, c3), (d1, d2, d3)] with
+      | some r => "ok " ++ showRats [r.1, r.2.1, r.2.2]
+      | none => "none"
     | _ => "bad-args"
   | _ => "nomodel"
 
